@@ -11,7 +11,8 @@ P = "OdxVerif.Dispatch."
 THEOREMS = [P + t for t in [
     "C06_attribution_partial", "C06_attribution_general", "C06_attribution_sound", "C06_attribution_counterexample",
     "C06_prefix_tree_complete_partial", "C06_prefix_tree_complete_counterexample", "C06_own_encoding",
-    "C06_response_via_request", "C06_response_only_via_request", "C06_service_groups", "C06_lenient"]]
+    "C06_response_via_request", "C06_response_only_via_request", "C06_service_groups", "C06_lenient_eq_strict",
+    "C06_lenient_general", "C06_lenient_attribution"]]
 RULE = ("service sets of 1-5 services loaded from generated ODX XML (shared, nested, empty and distinct constant prefixes; "
         "PHYS-CONST and multi-byte constants; requests of differing lengths; MATCHING-REQUEST-PARAM inside / across / beyond the "
         "request prefix; NRC-CONST alternatives; shared and doubly referenced responses; 0-2 global negative responses) x messages "
@@ -29,7 +30,9 @@ ASSUMPTIONS = ["envelope: byte-aligned constant parameters without explicit BYTE
                "'cannot uniquely decode'); ambiguous cases are covered by C06_attribution_general and by the correspondence runs only",
                "NoEmptyPrefix: open finding c06-empty-prefix (a coding object with an empty constant prefix does not make its service a "
                "candidate); the fix contradicts four odxtools unit tests (somersault 'schroedinger' service), so the model follows the code",
-               "non-strict mode: theorem C06_lenient only (global negative responses are never tried in that mode)"]
+               "non-strict mode differs from strict mode only for ambiguous services (first matching coding object instead of 'cannot "
+               "uniquely decode'): C06_lenient_eq_strict / C06_lenient_general / C06_lenient_attribution; the direct oracle checks the "
+               "attribution in non-strict mode for ambiguous input as well"]
 
 KNOWN_LOCAL = common.VERIF / "fixes" / "known_C06.jsonl"
 
@@ -285,11 +288,11 @@ def check_decode(ctx, rep, op, desc, view, info, line, impl, reply):
             if cn is not None:
                 reported.setdefault(sn, set()).add(cn)
     names = lambda ss: sorted(view.sname.get(s, "?") for s in ss)
-    if op == "decode" and strict:
-        if not r["unamb"]:
+    if op == "decode":
+        if strict and not r["unamb"]:
             ctx.count("oracle_skipped_ambiguous")
         else:
-            ctx.count("oracle_attribution_checked")
+            ctx.count("oracle_attribution_checked" if strict else "oracle_attribution_checked_lenient")
             missing = set(attr) - set(reported)
             extra = set(reported) - set(attr)
             for sn in sorted(missing):
@@ -322,15 +325,7 @@ def check_decode(ctx, rep, op, desc, view, info, line, impl, reply):
                         break
             if tag.startswith("own") and attr:
                 ctx.count("own_encoding_attributed")
-    elif op == "decode" and not strict:
-        # soundness in non-strict mode (C06_lenient): reported coding objects match
-        for sn, cs in reported.items():
-            ok = {c for c, _ in attr.get(sn, [])}
-            if not cs <= ok:
-                rep.violate("attribution-lenient", ["unsound"], "reported", {**w, "service": view.sname.get(sn)},
-                            "non-strict decode() reports a coding object which does not match the message")
-                break
-    elif op == "response" and strict:
+    elif op == "response":
         # soundness: reported ⊆ attributed for the response; completeness for the service that was asked
         for sn, cs in reported.items():
             ok = {c for c, _ in attr.get(sn, [])}
